@@ -393,6 +393,35 @@ def numbers_for(scheme, cfg, profile):
     return se.numbers(scheme, se.fit(scheme, cfg, profile, probe))
 
 
+def kwfixed_teeth():
+    """The per-keyword clause Order!MovesKwFixed evaluated by TLC on hand-made observations (it must fire on a placement that is
+    fixed for one level and must stay silent otherwise): -> dict for the evidence; MachineryError if an expectation fails."""
+    p = [8] * 24 + [2000, 2000]
+    c = numbers_for("DP17.Pi", sc.default_config("DP17.Pi"), p)
+    lit = se.tla_literal
+
+    def runs(small, big):
+        return lit([[[3, b]] for b in small] + [[[13, b]] for b in big])
+    same = list(range(24))
+    other = [100 + 3 * i for i in range(24)]
+    few = [i if i < 3 else 200 + i for i in range(24)]
+    cases = [("fixed-level", runs(same, [0, 1]), runs(same, [1, 0]), "TRUE"),            # 24 short lists in identical buckets
+             ("all-moved", runs(same, [0, 1]), runs(other, [1, 0]), "FALSE"),
+             ("three-coincide", runs(same, [0, 1]), runs(few, [1, 0]), "FALSE"),            # 3 * 9 < 26 + 27
+             ("only-the-one-bucket-level", runs(same, [0, 0]), runs(other, [0, 0]), "FALSE")]  # level 13 has a single bucket
+    body = "\n".join('ASSUME PrintT(<<"T", "%s", MovesKwFixed("DP17.Pi", P0, C0, %s, %s)>>) /\\ (MovesKwFixed("DP17.Pi", P0, C0, %s, %s) = %s)'
+                     % (n, a, b, a, b, exp) for n, a, b, exp in cases)
+    wrapper = "---- MODULE MCKW ----\nEXTENDS Order, TLC\nVARIABLE x\nP0 == %s\nC0 == %s\n%s\nInit == x = 0\nNext == UNCHANGED x\n====\n" % (lit(p), lit(c), body)
+    r = run_tlc("MCKW", "INIT Init\nNEXT Next\nCHECK_DEADLOCK FALSE\n", workers=1, extra_modules={"MCKW": wrapper}, name="kwfixed", heap="1g",
+                allow_violation=True)
+    if "Assumption" in r.out and "is false" in r.out:
+        raise MachineryError("Order!MovesKwFixed does not behave as expected on the hand-made observations:\n" + r.out[-800:])
+    got = {tla_value(raw)[1]: tla_value(raw)[2] for raw in parse_printed(r.out, "T")}
+    if len(got) != len(cases):
+        raise MachineryError("Order!MovesKwFixed teeth: %d of %d assumptions evaluated" % (len(got), len(cases)))
+    return {"clause": "Moves:keywords-fixed (Order!MovesKwFixed)", "hand_made_observations": got}
+
+
 def move_candidates(tr, rnd):
     """candidate (scheme, gi, cfg, profile): the model (FamilyOK) decides which of them are usable"""
     out = []
@@ -636,6 +665,7 @@ def main(argv_tier=None, replay_path=None):
                  "MC_Place (placement as uniform choices, BoundHolds, ChoiceNeverEmpty; FamilyOK over %d candidate families); Layer A Trace_Order"
                  % (ro.distinct or 0, sum(len(c[2]) for c in cases), len(cands)),
         "placement_instances": inst_out,
+        "per_keyword_clause": kwfixed_teeth(),
         "moves_bound": {"rule": "P(two independent setups place every block identically) <= max over placements of its probability = 1 / (product of the sizes of the choice "
                                 "sets along the placement) <= 1 / prod(factors); PiPtr / Pi2Lev: m blocks on m usable slots, m! (m >= 12: 1/12! = 2.1e-9); SSE1 (fresh key, ideal "
                                 "PRP on s addresses): s!/(s-N)!; DP17: k-th chunk of level i chooses among >= floor(N/2^i) + 1 - floor((k-1)/(2^i div cmax + 1)) buckets; "
